@@ -26,7 +26,7 @@ DESIGN_REF = "DESIGN.md §3 C07"
 ASSUMPTIONS = ["directive-context expressions use only operators that context lexes (* + - << >> &)"]
 
 WIDTH = {"db": 1, "dw": 2, "dl": 3, "pointer": 3}
-ASCII_ALPHABET = "".join(chr(c) for c in range(0x20, 0x7F) if chr(c) not in "'\\")
+ASCII_ALPHABET = "".join(chr(c) for c in range(0x20, 0x7F) if chr(c) not in "'\\") + "\t\t"  # every printable character, and TAB
 
 
 def selftest() -> None:
